@@ -176,7 +176,12 @@ def run_solve(binary, polfile, opts, env=None, timeout=120, inline=False):
     """opts: list of CLI-like args, e.g. ['-a','u','-G','a','-o','30'].  Returns SolveResult."""
     import time
     t0 = time.time()
-    cmd = [binary, polfile] + (["-p"] if inline else []) + list(opts)
+    opts = list(opts)
+    if "-j" not in opts and os.environ.get("VERIF_SOLVE_THREADS", "1") != "default":
+        # one worker thread unless the caller asks otherwise: results of the end-to-end checks must be
+        # reproducible for a given seed (thread interleavings are C05's business, under the deterministic scheduler)
+        opts += ["-j", os.environ.get("VERIF_SOLVE_THREADS", "1")]
+    cmd = [binary, polfile] + (["-p"] if inline else []) + opts
     try:
         p = subprocess.run(cmd, stdout=subprocess.PIPE, stderr=subprocess.PIPE, env=env, timeout=timeout)
         out = p.stdout.decode("utf-8", "replace"); err = p.stderr.decode("utf-8", "replace"); rc = p.returncode
